@@ -78,12 +78,22 @@ class Script:
         self.max_running_seen = 0
         self.violations = []
         self.interrupt_hook = None
+        self.executor = None
+        self.forced = None          # optional: per executor wait, the task ids whose workers finish
+        self.nwait = 0
+        self.submit_tids = []
+        self.terminated_fids = []
 
 
 SCRIPT = None
 
 
 class ScriptedExecutor(P.ProcessExecutor):
+
+    def __init__(self, *a, **kw):
+        super().__init__(*a, **kw)
+        if SCRIPT is not None:
+            SCRIPT.executor = self
 
     def _fid(self, future):
         if SCRIPT.base is None:
@@ -107,6 +117,7 @@ class ScriptedExecutor(P.ProcessExecutor):
     def submit(self, fn, /, *args, **kwargs):
         future = super().submit(fn, *args, **kwargs)
         SCRIPT.created.append(future)
+        SCRIPT.submit_tids.append(getattr(kwargs.get('task'), 'label', -1))
         self._fid(future)
         SCRIPT.ops.append(['submit', [], self._obs()])
         return future
@@ -116,7 +127,15 @@ class ScriptedExecutor(P.ProcessExecutor):
         running = list(self._running_id_to_future_and_process.values())
         alive = [(f, p) for f, p in running if p.is_alive()]
         rng = SCRIPT.rng
-        if alive and rng.random() >= SCRIPT.p_idle:
+        if SCRIPT.forced is not None:
+            want = SCRIPT.forced[SCRIPT.nwait] if SCRIPT.nwait < len(SCRIPT.forced) else []
+            SCRIPT.nwait += 1
+            for f, p in alive:
+                tid = SCRIPT.submit_tids[self._fid(f)]
+                if tid in want:
+                    p.release_and_join()
+                    envs.append(['finish', self._fid(f)])
+        elif alive and rng.random() >= SCRIPT.p_idle:
             k = rng.choice([1, 1, 1, 2, len(alive)])
             for f, p in rng.sample(alive, min(k, len(alive))):
                 if rng.random() < SCRIPT.p_kill:
@@ -148,6 +167,7 @@ class ScriptedExecutor(P.ProcessExecutor):
         SCRIPT.ops.append(['cancel', [], self._obs()])
 
     def stop(self):
+        SCRIPT.terminated_fids += [self._fid(f) for f, _ in self._running_id_to_future_and_process.values()]
         super().stop()
         SCRIPT.ops.append(['stop', [], self._obs()])
 
